@@ -33,7 +33,7 @@ Fail(bad) == Report(bad) /\ nfail' = nfail + 1
 Keep == UNCHANGED cvars
 
 TBegin == /\ Is("Begin")
-          /\ phase' = "new" /\ total' = 0 /\ remaining' = 0 /\ fault' = FALSE /\ result' = "none"
+          /\ phase' = "new" /\ sent' = 0 /\ pending' = 0 /\ fault' = FALSE /\ result' = "none"
           /\ meta' = Ev /\ broken' = FALSE /\ l' = l + 1 /\ UNCHANGED nfail
 
 \* a transport event: either it is a step of Conn, or (first time for this connection) a reported deviation
@@ -47,8 +47,8 @@ TRead == /\ Is("Read")
          /\ l' = l + 1 /\ UNCHANGED meta
 
 TWrite == /\ Is("Write")
-          /\ (IF Ev.accepted >= 0 THEN Step(Write(Ev.offered, Ev.accepted), "C05.write_does_not_offer_the_unaccepted_rest")
-              ELSE Step(WriteErr(Ev.offered), "C05.write_does_not_offer_the_unaccepted_rest"))
+          /\ (IF Ev.accepted >= 0 THEN Step(Write(Ev.offered, Ev.accepted, Ev.continues), "C05.write_does_not_offer_the_unaccepted_rest")
+              ELSE Step(WriteErr(Ev.offered, Ev.continues), "C05.write_does_not_offer_the_unaccepted_rest"))
           /\ l' = l + 1 /\ UNCHANGED meta
 
 TFlush == /\ Is("Flush")
@@ -64,7 +64,7 @@ EndViolations(e) ==
     LET r == e.r
         crashed == e.outcome \in {"panic", "abort", "hang"}
         cleanTransport == ~fault /\ meta.script.kind \in {"unlimited", "chunk", "short_first"}
-        delivered == ~fault /\ total > 0 /\ remaining = 0
+        delivered == ~fault /\ sent > 0 /\ pending = 0
     IN
     (IF "C04" \in Props /\ crashed THEN {IF e.outcome = "hang" THEN "C04.never_answered" ELSE "C04.crash"} ELSE {})
     \cup (IF "C04" \in Props /\ ~crashed /\ Answerable /\ cleanTransport /\ r.raw_len = 0 THEN {"C04.no_response"} ELSE {})
@@ -73,17 +73,17 @@ EndViolations(e) ==
     \cup (IF "C04" \in Props /\ ~crashed /\ delivered /\ meta.app = "err" /\ meta.verdict = "valid" /\ r.status < 400
           THEN {"C04.handler_error_not_an_error_status"} ELSE {})
     \cup (IF "C04" \in Props /\ ~crashed /\ ~broken /\ ~ENABLED Return(e.outcome, r.status >= 400)
-          THEN (IF ~fault /\ total > 0 /\ remaining > 0 THEN {"C05.response_not_delivered_in_full"}
-                ELSE IF ~fault /\ total = 0 THEN {"C04.returned_without_writing_a_response"}
+          THEN (IF ~fault /\ pending > 0 THEN {"C05.response_not_delivered_in_full"}
+                ELSE IF ~fault /\ sent = 0 THEN {"C04.returned_without_writing_a_response"}
                 ELSE {"C04.return_value_inconsistent_with_transport"}) ELSE {})
-    \cup (IF "C05" \in Props /\ ~crashed /\ ~broken /\ ~fault /\ total > 0 /\ remaining > 0 THEN {"C05.response_not_delivered_in_full"} ELSE {})
-    \cup (IF "C05" \in Props /\ ~crashed /\ cleanTransport /\ remaining = 0 /\ r.raw_len > 0
+    \cup (IF "C05" \in Props /\ ~crashed /\ ~broken /\ ~fault /\ pending > 0 THEN {"C05.response_not_delivered_in_full"} ELSE {})
+    \cup (IF "C05" \in Props /\ ~crashed /\ cleanTransport /\ pending = 0 /\ r.raw_len > 0
           THEN (IF meta.method \in {"HEAD", "OPTIONS"} /\ meta.verdict # "valid"
                 \* a mutated HEAD/OPTIONS request: the server may or may not have recognised the method; either framing is accepted
                 THEN WellFormedViolations(r, meta.method) \cap WellFormedViolations(r, "")
                 ELSE WellFormedViolations(r, meta.method)) ELSE {})
     \cup (IF "C05" \in Props /\ ~crashed /\ r.raw_len > 0 /\ HasHdr(r, "injected") THEN {"C05.header_injection"} ELSE {})
-    \cup (IF "C10" \in Props /\ ~crashed /\ cleanTransport /\ remaining = 0 /\ r.raw_len > 0 THEN HardeningViolations(r) ELSE {})
+    \cup (IF "C10" \in Props /\ ~crashed /\ cleanTransport /\ pending = 0 /\ r.raw_len > 0 THEN HardeningViolations(r) ELSE {})
 
 TEnd == /\ Is("End")
         /\ LET bad == EndViolations(Ev) IN
